@@ -100,7 +100,7 @@ def runVisible (p : Params) : List Nat → Nat → Cfg → List Nat → Except (
 
 structure DState where
   cfs : List (Uri × Member) := []
-  st : SwarmState := { isOpen := Gen.C19.initIsOpen, mem := fun _ => Gen.C19.scfInitIsOpen }
+  st : SwarmState := fresh
 
 def showState (cfs : List (Uri × Member)) (st : SwarmState) : String :=
   let bits := String.join ((List.range cfs.length).map fun i => if st.mem i then "1" else "0")
